@@ -19,3 +19,41 @@
         assert!(r.offset == u32::from_be_bytes([buf[16], buf[17], buf[18], buf[19]]), "[offset_is_be_bytes_16_20]");
         assert!(r.len == u32::from_be_bytes([buf[20], buf[21], buf[22], buf[23]]), "[len_is_be_bytes_20_24]");
     }
+
+    // ---- BlobIndexReader::read: the count / offsets of a blob index page are trusted only after its checksum matched.
+    // The checksum function is stubbed by a constant, so "mismatch" / "match" are decided by the first 8 bytes alone;
+    // all 64-byte pages (room for 2 entries).
+    pub fn vk_checksum_const(_buf: &[u8]) -> u64 { 0x0123_4567_89AB_CDEF }
+
+    #[kani::proof]
+    #[kani::unwind(4)]
+    #[kani::stub(crate::serde::Checksummer::checksum64, vk_checksum_const)]
+    fn blob_index_bad_checksum_rejected_before_count_is_used() {
+        let buf: [u8; 64] = kani::any();
+        let stored = u64::from_be_bytes([buf[0], buf[1], buf[2], buf[3], buf[4], buf[5], buf[6], buf[7]]);
+        kani::assume(stored != 0x0123_4567_89AB_CDEF);
+        // must not panic whatever the count field says, and must reject the page
+        let r = BlobIndexReader::read(&buf[..]);
+        assert!(r.is_none(), "[index_page_with_wrong_checksum_is_rejected]");
+        std::mem::forget(r);
+    }
+
+    #[kani::proof]
+    #[kani::unwind(4)]
+    #[kani::stub(crate::serde::Checksummer::checksum64, vk_checksum_const)]
+    fn blob_index_good_checksum_decodes_count_entries() {
+        let mut buf: [u8; 64] = kani::any();
+        let c = 0x0123_4567_89AB_CDEFu64.to_be_bytes();
+        buf[0] = c[0]; buf[1] = c[1]; buf[2] = c[2]; buf[3] = c[3]; buf[4] = c[4]; buf[5] = c[5]; buf[6] = c[6]; buf[7] = c[7];
+        let count = u32::from_be_bytes([buf[8], buf[9], buf[10], buf[11]]);
+        kani::assume(count <= 2);
+        match BlobIndexReader::read(&buf[..]) {
+            None => assert!(false, "[index_page_with_matching_checksum_is_accepted]"),
+            Some(v) => {
+                assert!(v.len() == count as usize, "[decoded_entry_count_is_the_recorded_count]");
+                if count >= 1 { assert!(v[0] == BlobEntryIndex::read(&buf[12..36]), "[entry_i_is_decoded_from_its_24_byte_slot]"); }
+                if count == 2 { assert!(v[1] == BlobEntryIndex::read(&buf[36..60]), "[entry_i_is_decoded_from_its_24_byte_slot]"); }
+                std::mem::forget(v);
+            }
+        }
+    }
